@@ -194,6 +194,12 @@ HdrOk(b, h, hasPadding) ==
     /\ h.length = Len(b)
     /\ hasPadding => h.padding = (IF PBit(b) THEN b[Len(b)] ELSE -1)
 
+\* An accessor / conversion / iterator that panicked is recorded by name in ev.panics and its field is
+\* missing from the view.  That is a violation of C01 and of every property that reads the view; C08 and
+\* C18 read only the header accessors (counted in ev.hpanics) and error values.
+NoPanic(ev) ==
+    IF PROPS \subseteq {"C08", "C18"} THEN (P("C08") => ev.hpanics = 0) ELSE ev.panics = <<>>
+
 \* ---- fixed-layout fields (C09)
 SrFieldsOk(b, v) ==
     /\ v.ssrc = U32At(b, 5) /\ v.ntp = U64At(b, 9) /\ v.rtp = U32At(b, 17)
@@ -210,11 +216,16 @@ ByeFieldsOk(b, v, base) ==
     IN  /\ v.ssrcs = [i \in 1..c |-> U32At(b, 4 * i + 1)]
         /\ RegularPad(b, off) =>
               IF end = off THEN v.reason.some = 0
-              ELSE (off + 1 + b[off + 1] <= end) => (v.reason.some = 1 /\ SlOk(v.reason, off + 1, b[off + 1], base))
+              ELSE (off + 1 + b[off + 1] <= end) =>
+                      /\ v.reason.some = 1 /\ SlOk(v.reason, off + 1, b[off + 1], base)
+                      \* the string form of the same bytes (well-formed UTF-8 or an error)
+                      /\ v.reason_str = (IF IsUtf8(Slice(b, off + 1, b[off + 1])) THEN "ok" ELSE "utf8err")
+        /\ v.reason.some = 0 => v.reason_str = "none"
 
 AppFieldsOk(b, v, base) ==
     /\ v.ssrc = U32At(b, 5)
     /\ v.name = Slice(b, 8, 4)
+    /\ LET nm == UntilZero(Slice(b, 8, 4)) IN v.name_str = (IF IsUtf8(nm) THEN nm ELSE << -1 >>)
     /\ RegularPad(b, 12) => SlOk(v.data, 12, Len(b) - 12 - PadCount(b), base)
 
 \* ---- FCI decode laws (C15).  region = the FCI bytes (padding excluded), at 0-based offset roff of b
@@ -256,6 +267,7 @@ ItemGotOk(b, tok, it, base) ==
     /\ SlOk(it.value, tok.vo, tok.vn, base)
     /\ it.plen = tok.plen
     /\ tok.type = 8 => SlOk(it.prefix, tok.po, tok.pn, base)
+    /\ it.value_str = IsUtf8(Slice(b, tok.vo, tok.vn))       \* the string form of the value bytes
 ChunkGotOk(b, tok, ch, base, withLen) ==
     /\ ch.ssrc = tok.ssrc
     /\ Len(ch.items) = Len(tok.items)
@@ -498,7 +510,7 @@ CNextCtl(c, res) ==
 CNextConf(c, ev) ==
     LET res == ev.res
     IN  /\ CNextCtl(c, res)
-        /\ (P("C01") \/ P("C11")) => ev.panics = <<>>
+        /\ NoPanic(ev)
         /\ (P("C11") /\ ~(c.over \/ c.pos > Len(c.tiles)) /\ res.t = "some") =>
                    /\ Has(ev, "direct") =>                            \* IterFaithful against the real generic parser
                          /\ ev.tile = c.tiles[c.pos]
@@ -633,7 +645,7 @@ TilingFor(ev) ==
 
 \* ---- conformance of one logged event in the current state
 ParseEvConf(ev) ==
-    /\ P("C01") => ev.panics = <<>>
+    /\ NoPanic(ev)
     /\ CASE ev.kind \in PacketKinds \cup {"unknown", "rb"} -> TypedConf(ev.kind, ev.b, ev.res, 0)
          [] ev.kind = "packet" -> PacketConf(ev.b, ev.res, None, 0)
          [] ev.kind \in FciTypes -> FciDirectConf(ev.kind, ev.b, ev.res)
@@ -641,6 +653,13 @@ ParseEvConf(ev) ==
     \* round trip: the image just written from bld parses back to bld's configuration
     /\ (RtCtx(ev) /\ ev.kind \in PacketKinds /\ ev.kind = bld.cfg.kind /\ P(RoundTripProp(ev.kind))) =>
           /\ ev.b = img
+          /\ IsOk(ev.res)
+          /\ RoundTripOk(bld.cfg, ev.b, ev.res.view, 0)
+    \* independent encoder: the input is the SPECIFICATION's image of the current configuration (bytes that never
+    \* went through the crate's writer; the claim is validated, not trusted): always accepted, same fields (C09)
+    /\ (Has(ev, "enc") /\ ~IsNone(bld.cfg) /\ ev.kind \in PacketKinds /\ ev.kind = bld.cfg.kind
+           /\ (P("C09") \/ P(RoundTripProp(ev.kind)))) =>
+          /\ Assert(Accepts(bld.cfg) /\ IsImage(bld.cfg, ev.b), "TOOL-ERROR: enc event whose bytes are not the image of the configuration")
           /\ IsOk(ev.res)
           /\ RoundTripOk(bld.cfg, ev.b, ev.res.view, 0)
     /\ (RtCtx(ev) /\ ev.kind = "packet" /\ P("C19") /\ bld.cfg.kind \in {"unk", "custom"}) =>
@@ -662,13 +681,13 @@ ParseEvConf(ev) ==
                     /\ d.view.payload.o = fix /\ Slice(img, fix, d.view.payload.n) = c.payload
 
 ParseAllConf(ev) ==
-    /\ P("C01") => ev.panics = <<>>
+    /\ NoPanic(ev)
     /\ PacketConf(ev.b, ev.res, ev.typed, 0)
     /\ \A k \in PacketKinds \cup {"unknown"} : TypedConf(k, ev.b, ev.typed[k], 0)
 
 ParsePadConf(ev) ==
     /\ ev.padded = Pad(ev.b, ev.n)         \* the harness built the padded string: validated, not trusted
-    /\ P("C01") => ev.panics = <<>>
+    /\ NoPanic(ev)
     /\ PadPairConf(ev.kind, ev.b, ev.n, ev.padded, ev.res, ev.res_padded)
 
 StandaloneCfg(ev) == IF ev.op = "item_write" THEN [kind |-> "item", item |-> ItemCfg(ev.item)]
